@@ -486,6 +486,10 @@ func (db *RockDB) ZRem(ts int64, key []byte, members ...[]byte) (int64, error) {
 	if err != nil {
 		return 0, err
 	}
+	if keyInfo.IsNotExistOrExpired() {
+		// the members of an expired zset are dead, nothing can be removed from it
+		return 0, nil
+	}
 	table := keyInfo.Table
 
 	wb := db.wb
